@@ -126,7 +126,16 @@ func (o *orC04) trackRepl() {
 		}
 		// download backlog (what the master has and the replica has not received), in bytes
 		if mst := s.mysql.servers[m.master]; mst != nil && m.primary["C04"] && sv.Up && sv.HasChannel {
-			if back := (mst.Executed.Count() - sv.Holds().Count()) * s.spec.World.TxnSize; back >= s.spec.Cfg.SemiSyncEnableLag/4 && back > 0 {
+			var back int64
+			if mst.Executed.Count() > sv.Holds().Count() {
+				held := sv.Holds()
+				for i := len(mst.Binlog) - 1; i >= 0 && i >= len(mst.Binlog)-400; i-- {
+					if !held.Has(mst.Binlog[i].G) {
+						back += mst.Binlog[i].Size
+					}
+				}
+			}
+			if back >= s.spec.Cfg.SemiSyncEnableLag/4 && back > 0 {
 				if o.backlogAt == nil {
 					o.backlogAt = map[string]time.Duration{}
 				}
